@@ -42,6 +42,7 @@ type authWorld struct {
 	Sent   uint64            // packets sent to the TSS chain
 	Fwd    map[string]common.Address
 	HostID string
+	curTss int // index of the account governance configured as TSS account (creation: auTSS)
 }
 
 // auName: the real chain name of an abstract counterparty.  The names are valid ones of different lengths: "one" is short,
@@ -54,6 +55,8 @@ func auName(c string) string {
 	case "two":
 		n += strings.Repeat("w", 64-len(n))
 	case "tss":
+		// every character class a chain name may contain: letters, digits and . _ + - # [ ] < >
+		n += ".a_b+c-d#e[f]g<h>9"
 		n += strings.Repeat("s", 51-len(n))
 	}
 	return n
@@ -74,7 +77,7 @@ func newAuthWorld() *authWorld {
 		return []Acct{NewAcct(n + "/user"), NewAcct("relayer"), NewAcct("outsider"), NewAcct("tss"), NewAcct("relayer2")}
 	})
 	c := w.Chains["A"]
-	a := &authWorld{W: w, C: c, L: map[string]*LC{}, Next: map[string]uint64{}, RecvN: map[string]uint64{}, Fwd: map[string]common.Address{}, HostID: w.ID["A"]}
+	a := &authWorld{W: w, C: c, L: map[string]*LC{}, Next: map[string]uint64{}, RecvN: map[string]uint64{}, Fwd: map[string]common.Address{}, HostID: w.ID["A"], curTss: auTSS}
 	for _, n := range []string{"one", "two"} {
 		l := &LC{C: c, Synth: NewSynthTM("syn" + n), W: 2}
 		a.L[n] = l
@@ -213,9 +216,14 @@ func (a *authWorld) project() M {
 	tcs, _ := c.App.XIBCKeeper.ClientKeeper.GetClientState(ctx, auName("tss"))
 	lat["tss"] = fp(tcs.String())
 	st["lat"] = lat
+	// receipts by direct look-up of every sequence that was ever tried (not through the module's own iterator)
 	rc := []interface{}{}
-	for _, r := range c.App.XIBCKeeper.PacketKeeper.GetAllPacketReceipts(ctx) {
-		rc = append(rc, M{"c": auAbs(r.SrcChain), "s": int64(r.Sequence)})
+	for _, ch := range auChains {
+		for seq := uint64(1); seq <= a.RecvN[ch]+2; seq++ {
+			if c.App.XIBCKeeper.PacketKeeper.HasPacketReceipt(ctx, auName(ch), a.HostID, seq) {
+				rc = append(rc, M{"c": ch, "s": int64(seq)})
+			}
+		}
 	}
 	st["rcpt"] = rc
 	cm := []interface{}{}
@@ -256,6 +264,16 @@ func (a *authWorld) project() M {
 	}
 	hs["tss"] = int64(a.tssVersion())
 	st["upd"] = hs
+	st["tssacct"] = "none"
+	if cs, ok := c.App.XIBCKeeper.ClientKeeper.GetClientState(ctx, auName("tss")); ok {
+		if t, ok := cs.(*tsstypes.ClientState); ok {
+			for name, i := range auAcct {
+				if c.Accts[i].Acc.String() == t.TssAddress {
+					st["tssacct"] = name
+				}
+			}
+		}
+	}
 	tok := a.W.Origin["A"]
 	priv := M{
 		"chainName": fmt.Sprint(viewAny(c, packetABI, packetAddr, "chainName")),
@@ -331,11 +349,29 @@ func driveAuth(t *testing.T, in, out string, seed int64) {
 				if res != "ok" {
 					line["res"] = "err"
 				}
+			case "Regenesis":
+				// the host chain is restarted from its own exported genesis
+				res, msg := a.W.Regenesis("A")
+				line["res"], line["msg"] = res, clip(msg)
+			case "Rotate":
+				// governance moves the TSS client to another TSS account: an UpgradeClientProposal with a new client state
+				to := auAcct[str(st["to"])]
+				ncs := &tsstypes.ClientState{TssAddress: c.Accts[to].Acc.String(), Pubkey: []byte{9, byte(a.tssVersion())}, PartPubkeys: [][]byte{{7}}, Threshold: 1}
+				prop, err := clienttypes.NewUpgradeClientProposal("t", "d", auName("tss"), ncs, &tsstypes.ConsensusState{})
+				must(err)
+				res, msg := c.ExecProposal(prop)
+				line["res"], line["msg"] = res, msg
+				if res == "ok" {
+					a.curTss = to
+				} else {
+					line["res"] = "err"
+				}
 			case "Update":
 				ch, s := str(st["chain"]), auAcct[str(st["signer"])]
 				var r TxResult
 				if ch == "tss" {
-					hd := &tsstypes.Header{TssAddress: c.Accts[auTSS].Acc.String(), Pubkey: []byte{9, byte(a.tssVersion() + 1)}, PartPubkeys: [][]byte{{7}}, Threshold: 1}
+					// the header keeps the account governance configured (a.curTss); it only counts the update
+					hd := &tsstypes.Header{TssAddress: c.Accts[a.curTss].Acc.String(), Pubkey: []byte{9, byte(a.tssVersion() + 1)}, PartPubkeys: [][]byte{{7}}, Threshold: 1}
 					msg, err := clienttypes.NewMsgUpdateClient(auName(ch), hd, c.Accts[s].Acc)
 					must(err)
 					r = c.DeliverMsgs(c.Accts[s], msg)
